@@ -86,6 +86,10 @@ void vp_hex(FILE *f, const uint8_t *p, size_t n) {
 void vp_print_end(void) {
     fprintf(vp_out, "end live=%zu bytes=%zu\n", lg_live, lg_bytes);
 }
+void vp_ledger(size_t *live, size_t *bytes) { *live = lg_live; *bytes = lg_bytes; }
+void vp_print_end_less(size_t dlive_plus, size_t dlive_minus, size_t dbytes_plus, size_t dbytes_minus) {
+    fprintf(vp_out, "end live=%zu bytes=%zu\n", lg_live + dlive_minus - dlive_plus, lg_bytes + dbytes_minus - dbytes_plus);
+}
 
 void *vp_raw_alloc(size_t n) {
     void *p = malloc(n ? n : 1);
@@ -118,7 +122,11 @@ void *lltd_port_memset(void *ptr, int value, size_t num) { return memset(ptr, va
 void *lltd_port_memcpy(void *d, const void *s, size_t n) { return memcpy(d, s, n); }
 int lltd_port_memcmp(const void *a, const void *b, size_t n) { return memcmp(a, b, n); }
 
-void lltd_port_sleep_ms(uint32_t ms) { fprintf(vp_out, "sleep %u\n", ms); }
+VP_TL void (*vp_sleep_hook)(void) = NULL;    /* what another thread of the daemon does while this one sleeps (op `nest`) */
+void lltd_port_sleep_ms(uint32_t ms) {
+    fprintf(vp_out, "sleep %u\n", ms);
+    if (vp_sleep_hook) vp_sleep_hook();
+}
 
 #define VP_TXMAX 1024
 VP_TL struct vp_txrec vp_prev_tx[VP_TXMAX], vp_cur_tx[VP_TXMAX];
